@@ -97,7 +97,7 @@ func itemArgs(verb string, it mfItem) string {
 		if it.Ov != "" {
 			s += " " + it.Ov
 		}
-		s += " => " + it.Np
+		s += " => " + modfile.AutoQuote(it.Np)
 		if it.Nv != "" {
 			s += " " + it.Nv
 		}
@@ -108,7 +108,7 @@ func itemArgs(verb string, it mfItem) string {
 		}
 		return "[" + it.Lo + ", " + it.Hi + "]"
 	case "tool", "use":
-		return it.P
+		return modfile.AutoQuote(it.P)
 	case "godebug":
 		return it.K + "=" + it.V
 	}
@@ -726,7 +726,10 @@ func checkPrefix(in *sessionIn, text string, ops []mfOp, want sessionStep) ([]co
 	}
 	desc := fmt.Sprintf("after %v on\n%s", ops, text)
 	if perr != nil {
-		return []core.Violation{{Sig: "c08:" + last.Name + ":output-does-not-parse", What: fmt.Sprintf("formatted file does not parse strictly (%v) %s\noutput:\n%s", perr, desc, out)}}, false
+		// the file the structure was parsed from, edited and formatted, is no longer a file: wrong for C08 (the
+		// documented effect is a file) and for C15 (structure and syntax tree have come apart)
+		what := fmt.Sprintf("formatted file does not parse strictly (%v) %s\noutput:\n%s", perr, desc, out)
+		return []core.Violation{{Sig: "c08:" + last.Name + ":output-does-not-parse", What: what}, {Sig: "c15:" + last.Name + ":output-does-not-parse", What: what}}, false
 	}
 	if (lastErr != nil) != want.Err {
 		vs = append(vs, core.Violation{Sig: "c08:" + last.Name + ":error", What: fmt.Sprintf("%v returned err=%v, documented behaviour says error=%v; %s", last, lastErr, want.Err, desc)})
